@@ -176,6 +176,11 @@ impl<T: Bounded> BVH<T> {
                 completed.insert(parent_id, parent_node);
             }
         }
+        // Árbol formado por un único nodo terminal (sin particiones): la raíz es esa hoja
+        if let Some(TreeElement(_, Leaf, _, None, Some(elements))) = node_list.pop() {
+            let aabb = elements.aabb();
+            return Self::new(Some(BVHNode::Leaf { aabb, elements }));
+        }
         Self::new(completed.remove(&0_usize))
     }
 
